@@ -53,7 +53,9 @@ EXOTIC_HEADERS = [("space-in-name", [(b"bad name", b"1")]), ("colon-in-name", [(
                   ("nonascii-val", [(b"x-a", b"caf\xc3\xa9")]), ("empty-name", [(b"", b"1")]),
                   # headers that belong to one connection of one protocol: HTTP/2 has no place for them
                   ("te-gzip", [(b"te", b"gzip")]), ("connection-keep-alive", [(b"connection", b"keep-alive")]),
-                  ("transfer-encoding-chunked", [(b"transfer-encoding", b"chunked")]), ("upgrade-h2c", [(b"upgrade", b"h2c")])]
+                  ("transfer-encoding-chunked", [(b"transfer-encoding", b"chunked")]), ("upgrade-h2c", [(b"upgrade", b"h2c")]),
+                  # (in a push: a Host that disagrees with the promised request's :authority)
+                  ("host-other", [(b"host", b"other.example")])]
 OK_HEADERS = [("bytearray", [(bytearray(b"x-a"), bytearray(b"1"))]), ("memoryview", [(b"x-a", memoryview(b"1"))]),
               ("long", [(b"x-a", b"v" * 5000)]), ("empty-val", [(b"x-a", b"")])]
 
@@ -285,8 +287,9 @@ def _hdrs_exotic(headers):
         n = bytes(name)
         if n == b"" or n != n.lower() or b" " in n.strip() or b":" in n.strip()[1:] or any(c > 126 for c in n + bytes(value)):
             return True
-        if n.strip().lower() in (b"te", b"connection", b"transfer-encoding", b"upgrade", b"keep-alive", b"proxy-connection"):
-            return True  # headers of one connection of one protocol: HTTP/2 may refuse or drop them (wire clauses only)
+        if n.strip().lower() in (b"te", b"connection", b"transfer-encoding", b"upgrade", b"keep-alive", b"proxy-connection", b"host"):
+            return True  # headers of one connection of one protocol: HTTP/2 may refuse or drop them (wire clauses only); a Host in a
+                         # response or a push is nothing the statement speaks of either
     return False
 
 
